@@ -56,7 +56,7 @@ func init() {
 			}
 			// which top-level collection fields does ListFiles range over, reading .URI inside?
 			covered := map[string]bool{}
-			ast.Inspect(f.Decl.Body, func(nd ast.Node) bool {
+			inspect(f.Decl.Body, func(nd ast.Node) bool {
 				rs, ok := nd.(*ast.RangeStmt)
 				if !ok {
 					return true
@@ -66,7 +66,7 @@ func init() {
 					return true
 				}
 				readsURI := false
-				ast.Inspect(rs.Body, func(m ast.Node) bool {
+				inspect(rs.Body, func(m ast.Node) bool {
 					if sel, ok := m.(*ast.SelectorExpr); ok && sel.Sel.Name == "URI" {
 						if v := prog.SelField(info, sel); v != nil {
 							readsURI = true
@@ -104,7 +104,7 @@ func init() {
 			selectsByID := func(f *prog.FuncInfo) bool {
 				info := f.Pkg.TypesInfo
 				byID := false
-				ast.Inspect(f.Decl.Body, func(nd ast.Node) bool {
+				inspect(f.Decl.Body, func(nd ast.Node) bool {
 					if lit, ok := nd.(*ast.FuncLit); ok && exprUsesField(info, lit.Body, docID) {
 						byID = true
 					}
@@ -122,7 +122,7 @@ func init() {
 			}
 			if !selectsByID(lf) {
 				pos := lf.Decl.Pos()
-				ast.Inspect(lf.Decl.Body, func(nd ast.Node) bool {
+				inspect(lf.Decl.Body, func(nd ast.Node) bool {
 					if ix, ok := nd.(*ast.IndexExpr); ok && prog.SelField(lf.Pkg.TypesInfo, ix.X) == ckpts {
 						pos = ix.Pos()
 					}
@@ -155,7 +155,7 @@ func init() {
 				r.checkErrReturned(f, copyFn, "fs.Copy")
 				// the checkpoints file itself is appended to the file list
 				appended := false
-				ast.Inspect(f.Decl.Body, func(nd ast.Node) bool {
+				inspect(f.Decl.Body, func(nd ast.Node) bool {
 					call, ok := nd.(*ast.CallExpr)
 					if !ok || len(call.Args) < 2 {
 						return true
@@ -182,7 +182,7 @@ func init() {
 			// the job snapshot is copied after the per-operator loop in create
 			hasJobCopy := false
 			var loopEnd, jobCopyPos token.Pos
-			ast.Inspect(cr.Decl.Body, func(nd ast.Node) bool {
+			inspect(cr.Decl.Body, func(nd ast.Node) bool {
 				if rs, ok := nd.(*ast.RangeStmt); ok && loopEnd == token.NoPos {
 					loopEnd = rs.End()
 				}
@@ -277,7 +277,7 @@ func init() {
 			start := r.P.FuncObj("jobs", "(*Assembly).StartCheckpoint")
 			info := h.Pkg.TypesInfo
 			var createdVar types.Object
-			ast.Inspect(h.Decl.Body, func(nd ast.Node) bool {
+			inspect(h.Decl.Body, func(nd ast.Node) bool {
 				if as, ok := nd.(*ast.AssignStmt); ok && len(as.Rhs) == 1 && len(as.Lhs) == 3 {
 					if call, ok := ast.Unparen(as.Rhs[0]).(*ast.CallExpr); ok && r.P.CalleeFunc(info, call) == cs {
 						createdVar = prog.IdentObj(info, as.Lhs[1])
@@ -376,13 +376,13 @@ func (r *Run) checkErrReturned(f *prog.FuncInfo, fn *types.Func, tag string) {
 // continue that skips the copy.
 func (r *Run) checkLoopCopiesAll(f *prog.FuncInfo, copyFn *types.Func) {
 	info := f.Pkg.TypesInfo
-	ast.Inspect(f.Decl.Body, func(nd ast.Node) bool {
+	inspect(f.Decl.Body, func(nd ast.Node) bool {
 		rs, ok := nd.(*ast.RangeStmt)
 		if !ok || !r.exprCalls(info, rs.Body, copyFn) {
 			return true
 		}
 		r.Site(rs.Pos(), f.Name()+": copy loop is exhaustive")
-		ast.Inspect(rs.Body, func(m ast.Node) bool {
+		inspect(rs.Body, func(m ast.Node) bool {
 			if _, isLit := m.(*ast.FuncLit); isLit {
 				return false
 			}
@@ -399,13 +399,13 @@ func (r *Run) checkLoopCopiesAll(f *prog.FuncInfo, copyFn *types.Func) {
 // where file is the range variable over the listed files and artifactPath is built with filepath.Join.
 func (r *Run) checkCopyDirection(f *prog.FuncInfo, copyFn *types.Func, toArtifact bool) {
 	info := f.Pkg.TypesInfo
-	ast.Inspect(f.Decl.Body, func(nd ast.Node) bool {
+	inspect(f.Decl.Body, func(nd ast.Node) bool {
 		rs, ok := nd.(*ast.RangeStmt)
 		if !ok || rs.Value == nil {
 			return true
 		}
 		fileVar := prog.IdentObj(info, rs.Value)
-		ast.Inspect(rs.Body, func(m ast.Node) bool {
+		inspect(rs.Body, func(m ast.Node) bool {
 			if inner, ok := m.(*ast.RangeStmt); ok && inner != rs {
 				return false
 			}
@@ -433,7 +433,7 @@ func (r *Run) checkCopyDirection(f *prog.FuncInfo, copyFn *types.Func, toArtifac
 				jc := ast.Unparen(def).(*ast.CallExpr)
 				parse := r.P.FuncObj("storage/snapshots", "parseDKVURI")
 				var pfx, base types.Object
-				ast.Inspect(rs.Body, func(k ast.Node) bool {
+				inspect(rs.Body, func(k ast.Node) bool {
 					if inner, ok := k.(*ast.RangeStmt); ok && inner != rs {
 						return false
 					}
